@@ -42,6 +42,10 @@ type vc20Fixture struct {
 	// closed is a loopback TCP address nothing listens on.
 	closed string
 
+	// dualStack tells that a wildcard IPv6 socket can be bound and reached
+	// from the IPv4 loopback address.
+	dualStack bool
+
 	base   yaml.MapSlice
 	fields []*vc20Field
 
@@ -237,6 +241,16 @@ func vc20NewFixture(tb testing.TB) (fx *vc20Fixture) {
 
 	fx.closed = l.Addr().String()
 	_ = l.Close()
+
+	if l6, err6 := net.Listen("tcp", "[::]:0"); err6 == nil {
+		_, port, _ := net.SplitHostPort(l6.Addr().String())
+		if c4, err4 := net.DialTimeout("tcp4", net.JoinHostPort("127.0.0.1", port), time.Second); err4 == nil {
+			fx.dualStack = true
+			_ = c4.Close()
+		}
+
+		_ = l6.Close()
+	}
 
 	vc20WriteCert(tb, filepath.Join(fx.dir, "cert.crt"), filepath.Join(fx.dir, "cert.key"))
 	for _, name := range []string{"tls_key_1", "tls_key_2"} {
